@@ -41,7 +41,7 @@ def gen_cases(tier, seed):
     for tag, s in seeds.all_seeds():
         for name, o in [std[(len(cases) + j * 7) % len(std)] for j in range(3)] + [('all_on', options.all_on())]:
             cases.append({'shape': 'seed:' + tag, 'src': s, 'opts': dict(o), 'optset': name})
-    for i in range(150 if tier == 'quick' else 6000):
+    for i in range(150 if tier == 'quick' else 2000):
         s, _ = modgen.generate(seed, 40000 + i, guarded=(i % 2 == 0), size=8 + (i % 3) * 5)
         for j in range(2 if tier == 'quick' else 3):
             k = r.random()
